@@ -83,6 +83,21 @@ Theorem clone_faithful : forall (idx : option N) (s : store) (a : agent),
 Proof. exact clone_faithful_lemma. Qed.
 Print Assumptions clone_faithful.
 
+(* FAITHFUL AT ANY POINT OF ITS LIFE — the same statement for every member of every population reachable from a
+   separated one by any history of learn / score / act / clone / mutation / select / discard *)
+Theorem clone_faithful_reachable : forall (w0 : world) (ops : list op) (i : nat) (a : agent) (idx : option N),
+  WF w0 -> nth_error (w_pop (run w0 ops)) i = Some a ->
+  let s := w_store (run w0 ops) in
+  let r := clone_agent idx s a in
+  let K := kExt :: resync_keys (a_reg a) in
+  map fst (a_blocks (snd r)) = map fst (a_blocks a) /\
+  contents (fst r) (keep_out K (a_blocks (snd r))) = contents s (keep_out K (a_blocks a)) /\
+  (In kExt (map fst (a_blocks a)) -> map (rd (fst r)) (blk (snd r) kExt) = map (rd s) (blk a kExt)) /\
+  (a_mut (snd r) = a_mut a /\ a_arch (snd r) = a_arch a /\ a_hps (snd r) = a_hps a /\ a_reg (snd r) = a_reg a /\
+   map (fun o => (o_name o, o_lr o)) (a_opts (snd r)) = map (fun o => (o_name o, o_lr o)) (a_opts a)).
+Proof. exact clone_faithful_reachable_lemma. Qed.
+Print Assumptions clone_faithful_reachable.
+
 (* THE ALLOWED EXCEPTION, made precise — a registry whose only hook re-synchronises a target network t with its online
    network e (DQN.init_hook): on the copy, the target holds exactly the content of the parent's (= the copy's) online
    network, tensor by tensor (parameters and buffers). *)
